@@ -108,6 +108,8 @@ impl IdProvider for CounterIds {
 		match (self.1, self.3) {
 			// (string ids that need escaping in JSON: quote, backslash, slash, a control character, non-ASCII)
 			(true, true) => SubscriptionId::Str(format!("s\"{n}\\/\u{1}\u{e9}").into()),
+			// (every other plain string id consists of digits only: a string all the same, "1001" is not 1001)
+			(true, false) if n % 2 == 1 => SubscriptionId::Str(format!("{}", 1000 + n).into()),
 			(true, false) => SubscriptionId::Str(format!("sub-{n}").into()),
 			_ => SubscriptionId::Num(n),
 		}
